@@ -48,6 +48,7 @@ const (
 	fkStoreOpen
 	fkStoreLose
 	fkRefuse
+	fkHookCancel // the block hook cancels the explicit sync's context
 	fkNum
 	// kinds below are used by C02 only
 	fkOversize       = 24
@@ -57,7 +58,7 @@ const (
 
 var fkNames = []string{"status404", "status403", "status400", "status429", "status500", "status503", "reset-before", "reset-mid",
 	"truncate", "short-cl", "flip", "empty", "substitute", "append", "stall", "delay-long", "cancel", "hook-fail",
-	"store-commit-error", "store-write-error", "store-open-error", "store-lost-commit", "refuse", "", "oversize", "stream-reset-mid", "stream-reset-before"}
+	"store-commit-error", "store-write-error", "store-open-error", "store-lost-commit", "refuse", "hook-cancel", "oversize", "stream-reset-mid", "stream-reset-before"}
 
 type faultPlan struct {
 	kind  int
@@ -232,6 +233,23 @@ func (sw *syncWorld) arm(expected []cid.Cid) {
 			if len(expected) > 0 {
 				sw.sub.FailAt[expected[p.at%len(expected)]] = fmt.Errorf("hook says no")
 			}
+		case fkHookCancel:
+			if len(expected) > 0 {
+				at := p.at % len(expected)
+				if sw.sub.OnHook == nil {
+					sw.sub.OnHook = map[cid.Cid]func(){}
+				}
+				sw.sub.OnHook[expected[at]] = func() {
+					// the caller's context ends while the sync is handing
+					// blocks to the hook (for an announce-triggered sync this
+					// is the context of the Announce call, long returned)
+					if sw.cancel != nil {
+						sw.cancel()
+						sw.w.R.Fault("cancel-in-hook")
+						sw.fired = append(sw.fired, fmt.Sprintf("hook-cancel@%d", at))
+					}
+				}
+			}
 		case fkStoreCommit:
 			st.FailCommit[baseC+p.at] = true
 		case fkStoreLose:
@@ -256,6 +274,7 @@ func (sw *syncWorld) disarm() {
 	sw.holdBystander = false
 	sw.discAlter = 0
 	sw.sub.FailAt = map[cid.Cid]error{}
+	sw.sub.OnHook = nil
 	st := sw.sub.Store
 	st.FailCommit, st.FailWrite, st.FailOpen, st.LoseCommit = nil, nil, nil, nil
 	sw.w.Net.Heal()
@@ -277,10 +296,11 @@ type c04Cfg struct {
 	padHead   int   // exact encoded size of the newest advertisement (0 = natural)
 	asyncMax  int   // MaxAsyncConcurrency (0 = unlimited)
 	adsDepth  int64 // AdsDepthLimit (0 = unlimited)
+	trusted   bool  // the subscriber's link system has TrustedStorage set
 }
 
 func (c c04Cfg) String() string {
-	return fmt.Sprintf("announce=%v discovery=%v seg=%d retry=%v ads=%d presynced=%d twoLive=%v dead=%d hash=%s asyncMax=%d adsDepth=%d", c.announce, c.discovery, c.seg, c.retry, c.nAds, c.preSynced, c.twoLive, c.dead, c.hashName, c.asyncMax, c.adsDepth)
+	return fmt.Sprintf("announce=%v discovery=%v seg=%d retry=%v ads=%d presynced=%d twoLive=%v dead=%d hash=%s asyncMax=%d adsDepth=%d trusted=%v", c.announce, c.discovery, c.seg, c.retry, c.nAds, c.preSynced, c.twoLive, c.dead, c.hashName, c.asyncMax, c.adsDepth, c.trusted)
 }
 
 // c04 enumerated cases: 2 triggers x 2 transports x 2 segmentations, chain of
@@ -401,6 +421,10 @@ func runFaultSync(r *simkit.Run, c Cfg, mode string, planner planFunc) {
 	if cfg.adsDepth > 0 {
 		sopts = append(sopts, dagsync.AdsDepthLimit(cfg.adsDepth))
 	}
+	if c.Case < 0 {
+		cfg.trusted = r.Tape.Chance(1, 4, "trustedStore")
+	}
+	w.TrustedStore = cfg.trusted
 	sub := w.NewSubscriber(sopts...)
 	sw := &syncWorld{w: w, pub: pub, sub: sub, lst: &listener{}}
 	sw.lst.ch, sw.lst.cancel = sub.Sub.OnSyncFinished()
